@@ -126,6 +126,14 @@ fn check_use_lines(set: &ModuleSet, mods: &[Module], origin: &str, rep: &mut Rep
                 rep.violations.push(Violation { sig: "c12|use-lines|symbol-imported-twice".into(), what: format!("module {}: use lines {uses:?} import a symbol of `{from}` twice [{origin}]", m.name), replay: json!({"origin": origin}) });
             }
             let Some((_, want)) = m.imports.iter().find(|(f, _)| rust_mod_name(f) == *from) else {
+                // documented: the governing type of an imported value is imported along with it, also when it lives in a
+                // module this module has no IMPORTS clause for
+                let imported_values: Vec<&String> = m.imports.iter().flat_map(|(_, s)| s.iter()).collect();
+                let associated: BTreeSet<String> = imported_values.iter().filter_map(|v| value_type.get(*v)).filter(|t| env.get(*t).is_some_and(|(mi, _)| rust_mod_name(&set.modules[*mi].name) == *from)).cloned().collect();
+                if !got.is_empty() && got.iter().all(|g| associated.contains(g)) {
+                    rep.count("associated_type_use_lines_from_third_module", 1);
+                    continue;
+                }
                 rep.violations.push(Violation { sig: "c12|use-lines|use-without-imports-clause".into(), what: format!("module {}: use of `{from}` ({uses:?}) but no IMPORTS ... FROM that module [{origin}]", m.name), replay: json!({"origin": origin}) });
                 continue;
             };
@@ -277,7 +285,7 @@ pub fn run(ctx: &Ctx) -> Report {
         "exploration",
         "grammar-G sets of 2..5 modules with independently drawn tagging defaults and EXTENSIBILITY IMPLIED flags, acyclic and cyclic import graphs (forward references across modules), imported types and values (values as DEFAULTs), module-qualified references; each module is one source. For every module m: its `pub mod` block (doc-free token-normalised items incl. use lines) in the full-set compilation is compared with its block when compiled with exactly its import closure (every order when <= 3 modules) and with the closure plus random other modules in random order. State invariant per generated module (hook H4): the backend's tagging and extensibility defaults equal the module header's while generating. Use lines: exactly one per IMPORTS ... FROM clause, symbol set = imported symbols (values in upper snake case) plus, as documented, the governing type of an imported value; module-qualified references must name the defining module. Non-trivial = full-set compilation Ok and projected; distinct by model hash.",
     );
-    rep.must_observe = vec!["module_blocks_compared".into(), "hook_events[ModuleEnv]".into(), "module_env_overwrites_that_mattered".into(), "use_symbol_sets_compared".into()];
+    rep.must_observe = vec!["copied_member_tags_compared".into(), "module_blocks_compared".into(), "hook_events[ModuleEnv]".into(), "module_env_overwrites_that_mattered".into(), "use_symbol_sets_compared".into()];
     rep.assumptions = vec!["hook H4 reports the backend state faithfully".into(), "import closure computed on the model (IMPORTS + module-qualified references)".into()];
     if let Some(path) = &ctx.replay {
         let doc: serde_json::Value = serde_json::from_str(&std::fs::read_to_string(path).expect("replay")).expect("json");
@@ -300,11 +308,82 @@ pub fn run(ctx: &Ctx) -> Report {
     let mut rep = acc.into_inner();
     name_styles(seed, ctx.pick(120u64, 2000), &mut rep);
     cross_module_cycles(seed, ctx.pick(120u64, 2000), &mut rep);
+    copied_bodies(&mut rep);
     rep
+}
+
+/// Type bodies the linker copies into another module (COMPONENTS OF, instantiation of a parameterized type) keep the
+/// tagging default of the module they are written in: exhaustive over defining default x using default x copying form x
+/// SEQUENCE/SET x source order. Judged by comparing the tag annotation of each copied member with the annotation of the
+/// same member inside the defining module.
+fn copied_body_sources(da: &str, db: &str, form: &str, kw: &str) -> (Vec<String>, &'static str) {
+    let a = format!(
+        "Ma DEFINITIONS {da} ::= BEGIN\nEXPORTS ALL;\nBase ::= {kw} {{ xa [0] INTEGER, ya [1] BOOLEAN OPTIONAL }}\nPar {{ Tp }} ::= {kw} {{ xa [0] Tp, ya [1] BOOLEAN OPTIONAL }}\nHome ::= Par {{ INTEGER }}\nEND\n"
+    );
+    let b = match form {
+        "components-of" => format!("Mb DEFINITIONS {db} ::= BEGIN\nIMPORTS Base FROM Ma;\nCopy ::= {kw} {{ zb [7] NULL, COMPONENTS OF Base }}\nEND\n"),
+        _ => format!("Mb DEFINITIONS {db} ::= BEGIN\nIMPORTS Par{{}} FROM Ma;\nCopy ::= Par {{ INTEGER }}\nEND\n"),
+    };
+    (vec![a, b], if form == "components-of" { "Base" } else { "Home" })
+}
+
+fn copied_bodies(rep: &mut Report) {
+    let defaults = ["EXPLICIT TAGS", "IMPLICIT TAGS", "AUTOMATIC TAGS"];
+    for da in defaults {
+        for db in ["EXPLICIT TAGS", "IMPLICIT TAGS"] {
+            for form in ["components-of", "parameterized"] {
+                for kw in ["SEQUENCE", "SET"] {
+                    for a_first in [true, false] {
+                        let (ab, home) = copied_body_sources(da, db, form, kw);
+                        let (a, b) = (ab[0].clone(), ab[1].clone());
+                        let srcs = if a_first { vec![a.clone(), b.clone()] } else { vec![b.clone(), a.clone()] };
+                        let run = comp::rasn(&srcs, &Cfg::default_cfg());
+                        rep.evaluations += 1;
+                        let comp::Outcome::Ok { generated, warnings } = &run.out else {
+                            rep.count("copied_body_cases[not Ok]", 1);
+                            continue;
+                        };
+                        if !warnings.is_empty() {
+                            rep.count("copied_body_cases[warnings]", 1);
+                            continue;
+                        }
+                        let Ok(mods) = crate::proj::project(generated) else { continue };
+                        let (Some(ma), Some(mb)) = (mods.iter().find(|m| m.name == "ma"), mods.iter().find(|m| m.name == "mb")) else { continue };
+                        let (Some(orig), Some(copy)) = (ma.find(home), mb.find("Copy")) else {
+                            rep.count("copied_body_cases[item absent]", 1);
+                            continue;
+                        };
+                        let (crate::proj::Kind::Struct { fields: fo, .. }, crate::proj::Kind::Struct { fields: fc, .. }) = (&orig.kind, &copy.kind) else { continue };
+                        rep.count("copied_body_cases_judged", 1);
+                        rep.nontrivial.insert(hash_str(&srcs.join("|")));
+                        for f in fo {
+                            let Some(c) = fc.iter().find(|x| x.name == f.name) else { continue };
+                            rep.count("copied_member_tags_compared", 1);
+                            if f.attrs.tag() != c.attrs.tag() {
+                                rep.violations.push(Violation {
+                                    sig: format!("c12|tagging-default-leaks-into-copied-body|{form}|defining={},using={}", da.split(' ').next().unwrap(), db.split(' ').next().unwrap()),
+                                    what: format!("member {} of Ma.{home} carries {:?}; its copy in Mb.Copy ({form}) carries {:?}", f.name, f.attrs.tag(), c.attrs.tag()),
+                                    replay: json!({"origin": format!("copied-body({da},{db},{form},{kw},a_first={a_first})"), "sources": srcs}),
+                                });
+                            }
+                        }
+                    }
+                }
+            }
+        }
+    }
 }
 
 /// sources of the template workloads (also type-checked by C01): even = name styles, odd = cross-module cycles
 pub fn template_sources(seed: u64, i: u64) -> Vec<String> {
+    if i % 8 == 7 {
+        // type bodies copied across modules with differing tagging defaults (COMPONENTS OF, imported parameterized type)
+        let k = i / 8;
+        let d = ["EXPLICIT TAGS", "IMPLICIT TAGS", "AUTOMATIC TAGS"];
+        let (da, db, kw) = (d[((k / 2) % 3) as usize], d[((k / 6) % 2) as usize], if (k / 12) % 2 == 0 { "SEQUENCE" } else { "SET" });
+        let (srcs, _) = copied_body_sources(da, db, if k % 2 == 1 { "components-of" } else { "parameterized" }, kw);
+        return srcs;
+    }
     match i % 3 {
         0 => {
             let (a, b, _, _, _) = name_style_case(seed, i / 3);
